@@ -37,7 +37,7 @@ fn suffix_kind(m: &[u8]) -> &'static str {
 }
 
 pub fn run(cfg: &Cfg, rep: &mut Report) {
-    let reps = cfg.n(1, 48, 960);
+    let reps = cfg.n(1, 48, 2_880);
     let n_enums = if cfg.tiny { 6 } else { CORPUS.len() as u64 };
     run_cases(cfg, "corpus", n_enums * reps, rep, |rng, ctx| {
         let e = &CORPUS[(ctx.index % CORPUS.len() as u64) as usize];
